@@ -43,6 +43,9 @@ Cases ==
   \cup {[als |-> <<WordAl(w)>>, chain |-> <<h>>] : w \in WordRows, h \in AllHops({"mem"})}
   \cup {[als |-> [k \in 1..m |-> Al(1 + (k % 3), IF k = 2 THEN 61 ELSE 5 * k, IF k = 2 THEN AaCyc ELSE NtCyc, FALSE)], chain |-> <<h>>] :
           m \in 1..4, h \in PhylipHops({"mem", "gz"}, Bools)}
+  \cup {[als |-> [k \in 1..m |-> Al(m - k + 1, 7, IF k = 2 THEN AaCyc ELSE NtCyc, FALSE)], chain |-> <<h>>] : m \in 2..3, h \in PhylipHops({"mem"}, Bools)}
+  \cup {[als |-> <<[rows |-> <<[n |-> <<116, 101, 110, 99, 104, 97, 114, 115, 95, 49>>, s |-> RowOf(NtCyc, 1, len)], [n |-> <<98>>, s |-> RowOf(NtCyc, 2, len)]>>]>>,
+          chain |-> <<h>>] : len \in {9, 60, 61}, h \in PhylipHops({"mem", "file"}, Bools)}
   \cup (IF Scope = "full" THEN {[als |-> <<Al(1, len, NtCyc, FALSE)>>, chain |-> ch] : len \in {1, 60, 121}, ch \in Chains3}
                                 \cup {[als |-> <<Al(3, len, AaCyc, FALSE)>>, chain |-> ch] : len \in Lens, ch \in Chains1}
         ELSE {})
